@@ -204,7 +204,10 @@ class ModuleInfo:
             self.tree = ast.parse(src, filename=path)
         except SyntaxError as e:
             raise AnalysisError("cannot parse %s: %s" % (path, e))
-        self.tree = ast.fix_missing_locations(_RotateLoops().visit(self.tree))
+        if name != "mqtt.pdu":
+            # (the codec module is read by the layout extractors, which match loop shapes as written; the path engine treats its
+            # encode/decode as atomic events)
+            self.tree = ast.fix_missing_locations(_RotateLoops().visit(self.tree))
         self.imports = {}   # local name -> ('mod', dotted) | ('from', dotted_module, name)
         self.consts = {}    # name -> value expr (module-level assignments)
         self.classes = {}
